@@ -1128,11 +1128,129 @@ def _restore(st, saved):
     return s
 
 
+def _fresh_mark():
+    m = z3.FreshConst(z3.IntSort(), "mark")
+    return int(str(m).rsplit("!", 1)[1])
+
+
+def _locals_since(mark, terms):
+    """Fresh constants (name!N with N > mark) occurring in the terms: symbols created while a comprehension body was
+    evaluated at the generic element; under the pointwise quantifier they are existentially bound per element."""
+    out, seen, stack = {}, set(), list(terms)
+    while stack:
+        t = stack.pop()
+        i = t.get_id()
+        if i in seen:
+            continue
+        seen.add(i)
+        if z3.is_quantifier(t):
+            stack.append(t.body())
+            continue
+        if z3.is_app(t):
+            if t.num_args() == 0 and t.decl().kind() == z3.Z3_OP_UNINTERPRETED:
+                name = t.decl().name()
+                if "!" in name:
+                    tail = name.rsplit("!", 1)[1]
+                    if tail.isdigit() and int(tail) > mark:
+                        out[i] = t
+            else:
+                stack.extend(t.children())
+    return list(out.values())
+
+
+def _eliminate_locals(loc, facts, goal):
+    """Locals defined by an equation among the facts (c == t, t free of c) are substituted away; returns the remaining
+    locals, facts and the rewritten goal."""
+    loc = list(loc)
+    facts = [f for f in facts]
+    changed = True
+    while changed and loc:
+        changed = False
+        for fi, f in enumerate(facts):
+            if not (z3.is_eq(f) and f.num_args() == 2):
+                continue
+            a, b = f.arg(0), f.arg(1)
+            for c, t in ((a, b), (b, a)):
+                hit = next((x for x in loc if x.eq(c)), None)
+                if hit is None or _locals_in(t, [hit]):
+                    continue
+                facts = [z3.substitute(g, (hit, t)) for gi, g in enumerate(facts) if gi != fi]
+                goal = z3.substitute(goal, (hit, t))
+                loc = [x for x in loc if not x.eq(hit)]
+                changed = True
+                break
+            if changed:
+                break
+    return loc, facts, goal
+
+
+def _locals_in(term, loc):
+    ids = {x.get_id() for x in loc}
+    seen, stack = set(), [term]
+    while stack:
+        t = stack.pop()
+        if t.get_id() in seen:
+            continue
+        seen.add(t.get_id())
+        if t.get_id() in ids:
+            return True
+        if z3.is_quantifier(t):
+            stack.append(t.body())
+        elif z3.is_app(t):
+            stack.extend(t.children())
+    return False
+
+
+def _pointwise_body(mark, facts, goal, result_const):
+    loc = [x for x in _locals_since(mark, [*facts, goal]) if not x.eq(result_const)]
+    loc, facts, goal = _eliminate_locals(loc, facts, goal)
+    body = And(*facts, goal)
+    return z3.Exists(loc, body) if loc else body
+
+
+def _pointwise(eng, st, inner, expr, what):
+    """Evaluate a comprehension body at the generic element (state `inner`).  Returns (facts, value, raises): the
+    path conditions the body added on its single normal path together with its value, and the raising outcomes."""
+    n0 = len(inner.pc)
+    res = eng.eval(expr, inner)
+    normal = [(s, v) for s, v in res if not isinstance(v, RaiseV)]
+    raises = [v for s, v in res if isinstance(v, RaiseV)]
+    if len(normal) != 1:
+        raise Unsupported(f"{what}: comprehension body forks")
+    s1, v = normal[0]
+    return list(s1.pc[n0:]), v, raises
+
+
+def _comp_symbolic_dict(eng, st, e, gen, it):
+    """{k: f(k, v) for k, v in d.items()} over a symbolic dict: same keys in the same order, values pointwise."""
+    if gen.ifs:
+        raise Unsupported("filtered dict comprehension over a symbolic dict")
+    if not (isinstance(it, DictView) and it.which == "items" and isinstance(gen.target, ast.Tuple)
+            and len(gen.target.elts) == 2 and all(isinstance(x, ast.Name) for x in gen.target.elts)
+            and isinstance(e.key, ast.Name) and e.key.id == gen.target.elts[0].id):
+        raise Unsupported("symbolic dict comprehension of another shape than {k: f(k, v) for k, v in d.items()}")
+    d = it.d
+    k = z3.FreshConst(d.kk.sort(), "ck")
+    mark = _fresh_mark()
+    inner = st.bind(gen.target.elts[0].id, unbox(k, d.kk)).bind(gen.target.elts[1].id, unbox(z3.Select(d.vals, k), d.vk))
+    facts, v, raises = _pointwise(eng, st, inner, e.value, "dict")
+    vk = v.kind
+    vals = z3.FreshConst(z3.ArraySort(d.kk.sort(), vk.sort()), "dcomp")
+    body = _pointwise_body(mark, facts, z3.Select(vals, k) == box(v, vk), vals)
+    s2 = st.assume(z3.ForAll([k], z3.Implies(z3.Contains(d.keys, z3.Unit(k)), body)))
+    outs = [(s2, DictV(d.kk, vk, d.keys, vals))]
+    for rv in raises:
+        outs.append((st, rv))      # some element's body raised (which one is not tracked)
+    return outs
+
+
 def _comp_symbolic(eng, st, e, gen, it, kind):
     """[f(x) for x in seq] over a symbolic sequence: fresh result with pointwise axiom.
     Filters need a spec function and are out of subset here."""
+    if kind == "dict":
+        return _comp_symbolic_dict(eng, st, e, gen, it)
     if kind not in ("list", "gen"):
-        raise Unsupported("symbolic set/dict comprehension")
+        raise Unsupported("symbolic set comprehension")
     if gen.ifs:
         # filtered comprehension over a symbolic sequence: over-approximated by an unconstrained list of the
         # element kind, no longer than the source (sound for postconditions: nothing about its content is known)
@@ -1158,34 +1276,33 @@ def _comp_symbolic(eng, st, e, gen, it, kind):
     if isinstance(it, RangeV):
         n = it.length()
         k = z3.FreshConst(z3.IntSort(), "ci")
+        mark = _fresh_mark()
         inner = st.bind(gen.target.id, IntV(it.start + k)) if isinstance(gen.target, ast.Name) else None
         if inner is None:
             raise Unsupported("comprehension target")
-        res = eng.eval(e.elt, inner)
-        if len(res) != 1 or isinstance(res[0][1], RaiseV):
-            raise Unsupported("comprehension body forks")
-        v = res[0][1]
-        ek = v.kind
-        r = z3.FreshConst(z3.SeqSort(ek.sort()), "comp")
-        s2 = st.assume(z3.Length(r) == n)
-        s2 = s2.assume(z3.ForAll([k], z3.Implies(And(k >= 0, k < n), r[k] == box(v, ek))))
-        return [(s2, ListV(ek, r))]
+        return _comp_list_result(eng, st, inner, e.elt, k, n, mark)
     if isinstance(it, ListV):
         n = z3.Length(it.t)
         k = z3.FreshConst(z3.IntSort(), "ci")
         if not isinstance(gen.target, ast.Name):
             raise Unsupported("comprehension target")
+        mark = _fresh_mark()
         inner = st.bind(gen.target.id, elem_at(it.elem, it.t, k))
-        res = eng.eval(e.elt, inner)
-        if len(res) != 1 or isinstance(res[0][1], RaiseV):
-            raise Unsupported("comprehension body forks")
-        v = res[0][1]
-        ek = v.kind
-        r = z3.FreshConst(z3.SeqSort(ek.sort()), "comp")
-        s2 = st.assume(z3.Length(r) == n)
-        s2 = s2.assume(z3.ForAll([k], z3.Implies(And(k >= 0, k < n), r[k] == box(v, ek))))
-        return [(s2, ListV(ek, r))]
+        return _comp_list_result(eng, st, inner, e.elt, k, n, mark)
     raise Unsupported(f"comprehension over {type(it).__name__}")
+
+
+def _comp_list_result(eng, st, inner, elt, k, n, mark):
+    facts, v, raises = _pointwise(eng, st, inner, elt, "list")
+    ek = v.kind
+    r = z3.FreshConst(z3.SeqSort(ek.sort()), "comp")
+    body = _pointwise_body(mark, facts, r[k] == box(v, ek), r)
+    s2 = st.assume(z3.Length(r) == n)
+    s2 = s2.assume(z3.ForAll([k], z3.Implies(And(k >= 0, k < n), body)))
+    outs = [(s2, ListV(ek, r))]
+    for rv in raises:
+        outs.append((st, rv))
+    return outs
 
 
 class RangeV(V):
@@ -1199,6 +1316,13 @@ class RangeV(V):
 class EnumV(V):
     def __init__(self, inner, start):
         self.inner, self.start = inner, start
+
+
+class ChainV(V):
+    """itertools.chain(a, b, ...): iterated as the concatenation of its parts (dicts by their keys)."""
+
+    def __init__(self, parts):
+        self.parts = parts
 
 
 # ------------------------------------------------------------------------------ builtins
@@ -1546,6 +1670,10 @@ def model_for_object(obj):
         return _mk_exc(obj.__name__)
     if obj is _copy.copy:
         return lambda eng, st, pos, kw: [(st, clone(pos[0]))]
+    import itertools as _it
+
+    if obj is _it.chain:
+        return lambda eng, st, pos, kw: [(st, ChainV(list(pos)))]
     if getattr(obj, "__name__", "") == "node" and getattr(obj, "__module__", "") == "pyxform.utils":
         from . import dom_model
 
